@@ -178,37 +178,62 @@ package tglib
 //@ assigns &ue.Kamf, &ue.KnasEnc, &ue.KnasInt
 
 // ---- assumed contracts used by the driver-level checks (C01, C02, C19) ----
-// The build-and-encode wrappers end in the reflection-driven NGAP encoder; what they put on the wire
-// is C13 (builders proved, wrappers bounded).  Here they return octets or an error, and record what
-// they were asked for in the ghost log "ngap.built"; the protection entry point records the header
+// The build-and-encode wrappers end in the reflection-driven NGAP encoder (assumed: octets or an
+// error); what they put on the wire is C13 (builders proved, octets bounded).  Each wrapper is proved
+// to hand the encoder the message of its procedure with its own arguments at their places (`call
+// Encoder hands`, from the builder's contract), and records what it was asked for in the ghost log
+// "ngap.built" for the driver-level checks; the protection entry point records the header
 // type and the context flags in "nas.protect".
 // Dialling the association is outside the subset: a connection or an error.
 //@ func ConnectToAmf
 //@ trusted
 //@ ensures either: result0 != nil || result1 != nil
 //@ func GetNGSetupRequest
-//@ trusted
+//@ prop C13
+//@ inlines BuildNGSetupRequest
+//@ requires plmn: len(mobilePLMN) == 3
+//@ assigns global tglib/ngapTestpacket.TestPlmn
+//@ call Encoder hands (pdu ngapType.NGAPPDU, gnbId []byte, bitlength uint64, name string): vcHandsNGSetup(pdu, gnbId, bitlength, name)
 //@ ghostlog ngap.built: trace.Rec(trace.NGSetupRequest, int64(bitlength), 0, 0)
 //@ func GetInitialUEMessage
-//@ trusted
+//@ prop C13
+//@ inlines BuildInitialUEMessage
+//@ shape fiveGSTmsi 0
+//@ call Encoder hands (pdu ngapType.NGAPPDU, ranUeNgapID int64, nasPdu []byte): vcHandsInitialUE(pdu, ranUeNgapID, nasPdu)
 //@ ghostlog ngap.built: trace.Rec(trace.InitialUEMessage, 0, ranUeNgapID, 0)
 //@ func GetUplinkNASTransport
-//@ trusted
+//@ prop C13
+//@ inlines BuildUplinkNasTransport
+//@ call Encoder hands (pdu ngapType.NGAPPDU, amfUeNgapID int64, ranUeNgapID int64, nasPdu []byte): vcHandsUplinkNAS(pdu, amfUeNgapID, ranUeNgapID, nasPdu)
 //@ ghostlog ngap.built: trace.Rec(trace.UplinkNASTransport, amfUeNgapID, ranUeNgapID, 0)
 //@ func GetInitialContextSetupResponse
-//@ trusted
+//@ prop C13
+//@ inlines BuildInitialContextSetupResponseForRegistraionTest
+//@ call Encoder hands (pdu ngapType.NGAPPDU, amfUeNgapID int64, ranUeNgapID int64): vcHandsICSRes(pdu, amfUeNgapID, ranUeNgapID)
 //@ ghostlog ngap.built: trace.Rec(trace.InitialContextSetupResponse, amfUeNgapID, ranUeNgapID, 0)
 //@ func GetInitialContextSetupResponseForServiceRequest
-//@ trusted
+//@ prop C13
+//@ inlines BuildInitialContextSetupResponse
+//@ requires ip: len(ipv4) >= 1 && net.ParseIP(ipv4).To4() != nil
+//@ call Encoder hands (pdu ngapType.NGAPPDU, amfUeNgapID int64, ranUeNgapID int64, pduId int64): vcHandsICSResService(pdu, amfUeNgapID, ranUeNgapID, pduId)
 //@ ghostlog ngap.built: trace.Rec(trace.InitialContextSetupResponseForService, amfUeNgapID, ranUeNgapID, pduId)
 //@ func GetPDUSessionResourceSetupResponse
-//@ trusted
+//@ prop C13
+//@ inlines BuildPDUSessionResourceSetupResponseForRegistrationTest
+//@ requires ip: len(ipv4) >= 1 && net.ParseIP(ipv4).To4() != nil
+//@ call Encoder hands (pdu ngapType.NGAPPDU, amfUeNgapID int64, ranUeNgapID int64, pduId int64): vcHandsPSRSetupRes(pdu, amfUeNgapID, ranUeNgapID, pduId)
 //@ ghostlog ngap.built: trace.Rec(trace.PDUSessionResourceSetupResponse, amfUeNgapID, ranUeNgapID, pduId)
 //@ func GetPDUSessionResourceReleaseResponse
-//@ trusted
+//@ prop C13
+//@ inlines BuildPDUSessionResourceReleaseResponseForReleaseTest
+//@ call Encoder hands (pdu ngapType.NGAPPDU, amfUeNgapID int64, ranUeNgapID int64, pduId int64): vcHandsPSRReleaseRes(pdu, amfUeNgapID, ranUeNgapID, pduId)
 //@ ghostlog ngap.built: trace.Rec(trace.PDUSessionResourceReleaseResponse, amfUeNgapID, ranUeNgapID, pduId)
 //@ func GetUEContextReleaseComplete
-//@ trusted
+//@ prop C13
+//@ inlines BuildUEContextReleaseComplete
+//@ maynil pduSessionIDList
+//@ requires nolist: pduSessionIDList == nil
+//@ call Encoder hands (pdu ngapType.NGAPPDU, amfUeNgapID int64, ranUeNgapID int64): vcHandsUECtxRelCpl(pdu, amfUeNgapID, ranUeNgapID)
 //@ ghostlog ngap.built: trace.Rec(trace.UEContextReleaseComplete, amfUeNgapID, ranUeNgapID, 0)
 //@ func GetNasPdu
 //@ trusted
